@@ -233,7 +233,7 @@ func KeyFor(i int) crypto.PrivateKeyI {
 		return k.(crypto.PrivateKeyI)
 	}
 	seed := make([]byte, 32)
-	seed[0], seed[1], seed[31] = byte(i+1), byte((i+1)>>8), 0x5a
+	seed[0], seed[29], seed[30], seed[31] = 0x01, byte((i+1)>>8), byte(i+1), 0x5a // below the group order
 	k, err := crypto.BytesToBLS12381PrivateKey(seed)
 	if err != nil {
 		panic(err)
